@@ -111,11 +111,36 @@ Proof.
     apply (conv_special_wf (JStr s)); intros d' E; discriminate.
   - cbn [merge_val] in M. inversion M; subst. reflexivity.
   - rewrite merge_val_dict in M.
-    destruct dv as [[| | | | | | | |dd]|]; try discriminate.
-    + destruct (merge_items ud dd) as [r|] eqn:E; [|discriminate]. inversion M; subst.
-      rewrite wfj_dict. apply (merge_items_wf ud IH dd r E). unfold dv_ok in O. rewrite wfj_dict in O. exact O.
-    + destruct (merge_items ud []) as [r|] eqn:E; [|discriminate]. inversion M; subst.
-      rewrite wfj_dict. apply (merge_items_wf ud IH [] r E). reflexivity.
+    destruct (merge_items ud (merge_base dv)) as [r|] eqn:E; [|discriminate]. inversion M; subst.
+    rewrite wfj_dict. apply (merge_items_wf ud IH _ r E).
+    destruct dv as [[| | | | | | | |dd]|]; try reflexivity.
+    cbn [merge_base]. unfold dv_ok in O. rewrite wfj_dict in O. exact O.
+Qed.
+
+(* SINCE THE REPAIR of update_conf nothing raises: a dictionary given where the existing value
+   is not a dictionary (or where there is none) is merged into an empty one *)
+Lemma merge_items_total ud :
+  Forall (fun kv => forall dv, exists nv, merge_val dv (snd kv) = Some nv) ud ->
+  forall acc, exists r, merge_items ud acc = Some r.
+Proof.
+  induction 1 as [|[k v] ud Hv _ IH]; intro acc; cbn [merge_items]; [eauto|].
+  destruct (Hv (lookup k acc)) as [nv E]. cbn [snd] in E. rewrite E. apply IH.
+Qed.
+
+Lemma merge_val_total : forall uv dv, exists nv, merge_val dv uv = Some nv.
+Proof.
+  intro uv. induction uv as [v A|l _|ud IH] using jv_ind2; intro dv.
+  - destruct v; try contradiction; cbn [merge_val]; eauto.
+  - cbn [merge_val]. eauto.
+  - rewrite merge_val_dict. destruct (merge_items_total ud IH (merge_base dv)) as [r E]. rewrite E. eauto.
+Qed.
+
+Lemma update_conf_total def user : exists r, update_conf def user = Some r.
+Proof.
+  unfold update_conf. rewrite merge_val_dict. cbn [merge_base].
+  assert (F : Forall (fun kv : string * jv => forall dv, exists nv, merge_val dv (snd kv) = Some nv) user).
+  { apply Forall_forall. intros kv _ dv. apply merge_val_total. }
+  destruct (merge_items_total user F def) as [r E]. rewrite E. eauto.
 Qed.
 
 Lemma update_conf_wf def user r : wfd def = true -> update_conf def user = Some r -> wfd r = true.
@@ -159,43 +184,39 @@ Proof.
   destruct (String.eqb s "inf"); [reflexivity|]. destruct (String.eqb s "-inf"); reflexivity.
 Qed.
 
-(* once a key holds a leaf it holds a leaf for ever (a dictionary merged onto it raises) *)
-Lemma merge_items_leaf k ud : forall acc r x,
-  merge_items ud acc = Some r -> lookup k acc = Some x -> leafb x = true ->
-  exists y, lookup k r = Some y /\ leafb y = true.
+(* a key the user dictionary does not have keeps its value *)
+Lemma merge_items_untouched k ud : forall acc r,
+  mem_str k (keys ud) = false -> merge_items ud acc = Some r -> lookup k r = lookup k acc.
 Proof.
-  induction ud as [|[k' v] ud IH]; intros acc r x M L Lf; cbn [merge_items] in M.
-  - inversion M; subst. exists x. auto.
-  - destruct (merge_val (lookup k' acc) v) as [nv|] eqn:E; [|discriminate].
-    destruct (String.eqb k k') eqn:K.
-    + apply String.eqb_eq in K. subst k'. rewrite L in E.
-      assert (Ln : leafb nv = true).
-      { destruct (leafb v) eqn:Lv; [exact (merge_leaf_is_leaf _ _ _ Lv E)|].
-        destruct v; try discriminate. rewrite merge_val_dict in E. destruct x; try discriminate. }
-      apply (IH _ _ nv M); [apply lookup_set_key|exact Ln].
-    + apply (IH _ _ x M); [rewrite (lookup_set_key_other _ _ _ _ K); exact L|exact Lf].
+  induction ud as [|[k' v] ud IH]; intros acc r N M; cbn [merge_items] in M.
+  - inversion M; subst. reflexivity.
+  - cbn [keys map fst mem_str] in N. apply orb_false_iff in N as [K N].
+    destruct (merge_val (lookup k' acc) v) as [nv|]; [|discriminate].
+    rewrite (IH _ _ N M). apply (lookup_set_key_other _ _ _ _ K).
 Qed.
 
-(* a key that holds a dictionary before and after: the earlier keys come first *)
+(* a key that holds a dictionary before and after: the earlier keys come first.  The user
+   dictionary has each key once (a Python dict): with a repeated key, a scalar then a dictionary
+   given for the same key would start a fresh dictionary (the scalar replaces the default, the
+   dictionary then replaces the scalar). *)
 Lemma merge_items_dict_prefix k ud : forall acc r a b,
+  nodup_str (keys ud) = true ->
   merge_items ud acc = Some r -> lookup k acc = Some (JDict a) -> lookup k r = Some (JDict b) ->
   exists t, keys b = keys a ++ t.
 Proof.
-  induction ud as [|[k' v] ud IH]; intros acc r a b M La Lb; cbn [merge_items] in M.
+  induction ud as [|[k' v] ud IH]; intros acc r a b ND M La Lb; cbn [merge_items] in M.
   - inversion M; subst. rewrite La in Lb. inversion Lb; subst. exists []. rewrite app_nil_r. reflexivity.
-  - destruct (merge_val (lookup k' acc) v) as [nv|] eqn:E; [|discriminate].
+  - cbn [keys map fst nodup_str] in ND. apply andb_prop in ND as [N1 ND]. apply negb_true_iff in N1.
+    destruct (merge_val (lookup k' acc) v) as [nv|] eqn:E; [|discriminate].
     destruct (String.eqb k k') eqn:K.
     + apply String.eqb_eq in K. subst k'. rewrite La in E.
-      destruct (leafb v) eqn:Lv.
-      * pose proof (merge_leaf_is_leaf _ _ _ Lv E) as Ln.
-        destruct (merge_items_leaf k ud _ r nv M (lookup_set_key k nv acc) Ln) as [y [Ly Lfy]].
-        rewrite Lb in Ly. inversion Ly; subst. discriminate.
-      * destruct v; try discriminate. rewrite merge_val_dict in E.
-        destruct (merge_items d a) as [a'|] eqn:Ea; [|discriminate]. inversion E; subst nv.
-        destruct (merge_items_prefix d a a' Ea) as [t1 E1].
-        destruct (IH _ r a' b M (lookup_set_key k _ acc) Lb) as [t2 E2].
-        exists (t1 ++ t2). rewrite E2, E1, <- app_assoc. reflexivity.
-    + apply (IH _ r a b M); [rewrite (lookup_set_key_other _ _ _ _ K); exact La|exact Lb].
+      pose proof (merge_items_untouched k ud _ r N1 M) as U. rewrite lookup_set_key in U.
+      rewrite Lb in U. inversion U; subst nv. clear U.
+      destruct (leafb v) eqn:Lv; [pose proof (merge_leaf_is_leaf _ _ _ Lv E); discriminate|].
+      destruct v; try discriminate. rewrite merge_val_dict in E. cbn [merge_base] in E.
+      destruct (merge_items d a) as [a'|] eqn:Ea; [|discriminate]. inversion E; subst a'.
+      exact (merge_items_prefix d a b Ea).
+    + apply (IH _ r a b ND M); [rewrite (lookup_set_key_other _ _ _ _ K); exact La|exact Lb].
 Qed.
 
 Lemma strs_eqb_refl a : strs_eqb a a = true.
